@@ -547,16 +547,23 @@ def _pool(rng, base, size, p_near=0.25, p_rel=0.45):
     return items
 
 
+def _elem_list(g):
+    """Elements in NODE ORDER: isomorphism-invariant only as a multiset (GraphCluster compares sorted(value))."""
+    return [sum(ord(c) for c in a.get("element", "*")) for _, a in g["nodes"]]
+
+
 def _set_attrs(items, mode, invariant, rng):
+    unordered = rng.random() < 0.5
     for it in items:
         if mode == "none":
             it["attr"] = None
         elif mode == "str":
             it["attr"] = _signature(it["g"]) if invariant else rng.choice(["a", "b", _signature(it["g"])[:3]])
         else:
-            it["attr"] = _ring_attr(it["g"]) if invariant else [rng.choice([1, 2]), rng.choice([1, 2])]
-            if not invariant:
-                pass
+            if invariant:
+                it["attr"] = _elem_list(it["g"]) if unordered else _ring_attr(it["g"])
+            else:
+                it["attr"] = [rng.choice([1, 2]), rng.choice([1, 2])]
     return items
 
 
